@@ -1,3 +1,118 @@
 import LocustModel.Proto
-/- Driver stub for C11 (replaced when the property's model is built). -/
-def main : IO Unit := LM.Proto.runDriver fun _ => "?\t?"
+import LocustModel.Conc.SchedDb
+import LocustModel.Conc.LockOrder
+/-
+  Driver for C11.  Input lines (harness/src/bin/c11.rs):
+    seq n=<N> hist=<req,…|[]> req=<req> obs=<out>|<workers>|<flush>|<canary>
+    par n=<N> hist=<req,…|[]> reqs=<req,…> obs=<out;out;…>|<workers>|<flush>|<canary>
+    locks <file>:<fn> <field,field,…>
+    open k=<wal files> bad=<damaged wal files> out=<ok|panic|hang>
+  <req> = q.<d|e|f…> | qv.<kind> | qn.<parts>.<m>.<c> | t.<d|f> | st | mt | in | fl.<k1>.<f1>.<k2>.<f2>.<tf> | cl.<wal|tab>
+  Output:  <model> TAB <spec>
+    model = what the scheduler model (Cfg.current) predicts, in the text of the implementation output
+            `<out> w=<workers> flush=<out> canary=<out>`
+    spec  = OK | BAD <reason> (property C11 judged on the observed values) | SKIP (fault injected into the caller)
+-/
+namespace LM.DrvC11
+open LM LM.Proto LM.Sched
+
+def parseOut (c : Char) : Option Out :=
+  if c = 'd' then some .done else if c = 'e' then some .err else if c = 'f' then some .fault else none
+
+def parseReq (s : String) : Option Req :=
+  match s.splitOn "." with
+  | ["q", outs] => (outs.toList.mapM parseOut).map Req.query
+  | ["qv", kind] => some (.queryErr kind)
+  | ["qn", p, m, c] => do
+      let p ← p.toNat?
+      let m ← m.toNat?
+      let c ← c.toNat?
+      pure (.natural p m c)
+  | ["t", "d"] => some (.fnTask .done)
+  | ["t", "f"] => some (.fnTask .fault)
+  | ["st"] => some .stats
+  | ["mt"] => some .memTree
+  | ["in"] => some .ingest
+  | ["fl", a, b, c, d, e] => do
+      let a ← a.toNat?
+      let b ← b.toNat?
+      let c ← c.toNat?
+      let d ← d.toNat?
+      let e ← e.toNat?
+      pure (.flush a b c d e)
+  | ["cl", "wal"] => some (.callerFault .walSize)
+  | ["cl", "tab"] => some (.callerFault .tableLocks)
+  | _ => none
+
+def parseRet (s : String) : Option Ret :=
+  if s = "ok" then some .ok else if s = "failed" then some .failed else if s = "panic" then some .panic
+  else if s = "hang" then some .hang
+  else match s.splitOn ":" with
+    | ["err", k] => some (.err k)
+    | _ => none
+
+def field (key : String) (toks : List String) : Option String :=
+  toks.findSome? fun t => if t.startsWith (key ++ "=") then some (t.drop (key.length + 1)).toString else none
+
+def showObs (out : String) (o : Obs) : String :=
+  out ++ " w=" ++ toString o.workers ++ " flush=" ++ o.flush.toString ++ " canary=" ++ o.canary.toString
+
+def replay (n : Nat) (hist : List Req) : Db := Db.rounds .current (Db.init n) hist
+
+def judge (n : Nat) (hist reqs : List Req) (outs : List Ret) (o : Obs) : String :=
+  if (hist ++ reqs).any (fun r => !r.inDomain) then "SKIP" else
+  -- every request of the round is judged with the state observed after the round
+  match (reqs.zip outs).findSome? (fun (r, out) => specRound n r out o) with
+  | some why => "BAD " ++ why
+  | none => if reqs.length = outs.length then "OK" else "BAD malformed observation"
+
+def stepSeq (toks : List String) : Option String := do
+  let n ← (← field "n" toks).toNat?
+  let hist ← parseList parseReq (← field "hist" toks)
+  let req ← parseReq (← field "req" toks)
+  let obs := (← field "obs" toks).splitOn "|"
+  match obs with
+  | [out, w, fl, c] =>
+      let (_, mout, mobs) := (replay n hist).round .current req
+      let o : Obs := { workers := (← w.toNat?), flush := (← parseRet fl), canary := (← parseRet c) }
+      let out ← parseRet out
+      pure (showObs mout.toString mobs ++ "\t" ++ judge n hist [req] [out] o)
+  | _ => none
+
+def stepPar (toks : List String) : Option String := do
+  let n ← (← field "n" toks).toNat?
+  let hist ← parseList parseReq (← field "hist" toks)
+  let reqs ← parseList parseReq (← field "reqs" toks)
+  let obs := (← field "obs" toks).splitOn "|"
+  match obs with
+  | [outs, w, fl, c] =>
+      -- under Cfg.current the outcome of a request does not depend on the schedule: replay one after the other
+      let (d, mouts) := reqs.foldl (fun (acc : Db × List Ret) r => let (d, out) := acc.1.request .current r; (d, acc.2 ++ [out]))
+        (replay n hist, [])
+      let (_, mobs) := d.observe .current
+      let o : Obs := { workers := (← w.toNat?), flush := (← parseRet fl), canary := (← parseRet c) }
+      let outs ← (outs.splitOn ";").mapM parseRet
+      pure (showObs (";".intercalate (mouts.map Ret.toString)) mobs ++ "\t" ++ judge n hist reqs outs o)
+  | _ => none
+
+def step (line : String) : String :=
+  match splitTokens line with
+  | "seq" :: toks => (stepSeq toks).getD "bad-op\tbad-op"
+  | "par" :: toks => (stepPar toks).getD "bad-op\tbad-op"
+  | ["locks", key, fields] =>
+      match parseList some fields with
+      | some fs => LM.LockOrder.judgeSite key fs ++ "\tOK"
+      | none => "bad-op\tbad-op"
+  | "open" :: toks =>
+      match (field "k" toks).bind String.toNat?, (field "bad" toks).bind String.toNat?, field "out" toks with
+      | some k, some bad, some out =>
+          let model := match recover .current (jobs k bad) with
+            | none => "hang" | some true => "ok" | some false => "panic"
+          -- LocustDB::new has no error channel: refusing a damaged directory by a panic in the caller is a completed call
+          model ++ "\t" ++ (if out = "hang" then "BAD LocustDB::new did not return" else "OK")
+      | _, _, _ => "bad-op\tbad-op"
+  | _ => "bad-op\tbad-op"
+
+end LM.DrvC11
+
+def main : IO Unit := LM.Proto.runDriver LM.DrvC11.step
